@@ -37,6 +37,20 @@
 (*           "move"   new.ref = prev.ref ; prev.ref = nil          (RateLimiter.reload at the pin)*)
 (*   Cls(k)  "none" / "stop"  Close leaves Handle usable (stops background work only)             *)
 (*           "kill"   Handle after Close fails, and so does a call that is in flight during Close *)
+(*           "disable" Handle after Close works, but the state cell no longer does what it is     *)
+(*                    configured to do (a limiter that lets everything pass)                      *)
+(* Configuration of a pipeline generation: like the server's [rv, ov], a pipeline generation is   *)
+(* built from version fv of its *filters* section and version pv of its *resilience* section      *)
+(* (pipeline-level policies that filters of a kind in Resilient refer to by name); an update      *)
+(* changes the filters, the resilience section or both (PipKinds).  pobj[id].pol[i] is the        *)
+(* version of the policies the instance of filter i works under (Pipeline.reload:                 *)
+(* InjectResiliencePolicy).  Knob Reuse (FALSE in the code): reload takes the running instance    *)
+(* of a filter whose own spec is unchanged over into the new generation as it is.                 *)
+(* Request classes (Classes): "n" plain; "x" a request for a URL for which every generation       *)
+(* configures a limit of Limit permits per (unbounded) period at the filters of a kind in         *)
+(* Limiting - the permits are state of the cell, `lim.spent` are the cells whose permits are used *)
+(* up, `lim.off` the cells a Close disabled; "f" a request whose backend call fails, so that the  *)
+(* policies a Resilient filter works under show (number of attempts).                            *)
 (* The contract (what C11 states) are the invariants at the end; they must hold for the modes of  *)
 (* the real code.                                                                                 *)
 EXTENDS Integers, Sequences, FiniteSets
@@ -56,10 +70,17 @@ CONSTANTS Reqs,        \* request processes (strings)
           SrvKinds,    \* what a server reload may change: subset of {"rules", "opts", "both"}
           IPs,         \* client addresses of requests: subset of {"n", "b"} ("b" is blocked by every other options version)
           LoadPerStep, \* impl knob (FALSE in the code): every step of a request re-reads m.inst
-          Targets      \* what a request may address: "srv" (through the server) and/or pipelines (directly)
+          Targets,     \* what a request may address: "srv" (through the server) and/or pipelines (directly)
+          PipKinds,    \* what a pipeline update may change: subset of {"filters", "resil", "both"}
+          Classes,     \* request classes: subset of {"n", "x", "f"}
+          Reuse        \* impl knob (FALSE in the code): reload takes over the instance of a filter whose own spec is unchanged
 
 NF == Len(Kinds)
 Pipes == {Routed[1], Routed[2]} \cup Others
+
+Limiting == {"rl"}     \* kinds that limit class "x" requests to Limit permits per period and state cell
+Resilient == {"px"}    \* kinds that work under the pipeline-level resilience policies
+Limit == 1
 
 Inh(k) == CASE k = "rl" -> InhRl [] k = "px" -> InhPx [] OTHER -> "fresh"
 Cls(k) == CASE k = "rl" -> ClsRl [] k = "px" -> ClsPx [] OTHER -> "stop"
@@ -69,34 +90,45 @@ VARIABLES muxInst,  \* generation (index into sgen) stored in mux.inst
           ns,       \* [Pipes -> id]  the namespace map (0 = absent)
           pobj,     \* sequence of pipeline generation objects
           dead,     \* set of <<creator id, filter index>>: state cells killed by a Close
+          lim,      \* [spent, off]: cells whose permits for class "x" are used up / cells a Close disabled
           u,        \* the updater: [op, p, new, i]
           rq,       \* [Reqs -> request record]
           cnt,      \* budget counters [srv, pip, other, same] and per request process
           last      \* the step just taken + what an observer of the real system must see (not in VIEW)
 
-vars == <<muxInst, sgen, ns, pobj, dead, u, rq, cnt, last>>
-view == <<muxInst, sgen, ns, pobj, dead, u, rq, cnt>>
+vars == <<muxInst, sgen, ns, pobj, dead, lim, u, rq, cnt, last>>
+view == <<muxInst, sgen, ns, pobj, dead, lim, u, rq, cnt>>
 
 BackendOf(g) == Routed[((sgen[g].rv - 1) % 2) + 1]
 XffOf(g) == (sgen[g].ov % 2) = 1
 Blocked(g, ip) == ip = "b" /\ (sgen[g].ov % 2) = 0
 
 Idle == [op |-> "idle", p |-> "-", new |-> 0, i |-> 0]
-NoReq == [pc |-> "idle", tg |-> "-", ip |-> "n", sg |-> 0, be |-> 0, rw |-> 0, xf |-> 0, ph |-> 0, i |-> 0, st |-> "",
-          fs |-> 0, fp |-> [p \in Pipes |-> 0]]
+NoReq == [pc |-> "idle", tg |-> "-", ip |-> "n", cl |-> "n", sg |-> 0, be |-> 0, rw |-> 0, xf |-> 0, ph |-> 0, i |-> 0, st |-> "",
+          po |-> 0, fs |-> 0, fp |-> [p \in Pipes |-> 0]]
 
 VerOf(id) == IF id = 0 THEN 0 ELSE pobj[id].ver
 NextVer(p) == Cardinality({j \in 1..Len(pobj) : pobj[j].name = p}) + 1
-NewObj(p, v, id, init) == [name |-> p, ver |-> v, ref |-> [i \in 1..NF |-> IF init THEN id ELSE 0], closed |-> FALSE]
+FvOf(id) == IF id = 0 THEN 0 ELSE pobj[id].fv
+PvOf(id) == IF id = 0 THEN 0 ELSE pobj[id].pv
+(* a generation object built from version fv of the filters and pv of the resilience section; an  *)
+(* initialised one (Init) has its own state cells and works under its own policies               *)
+NewObj(p, v, fv, pv, id, init) ==
+    [name |-> p, ver |-> v, fv |-> fv, pv |-> pv, closed |-> FALSE,
+     ref |-> [i \in 1..NF |-> IF init THEN id ELSE 0],
+     pol |-> [i \in 1..NF |-> IF init /\ Kinds[i] \in Resilient THEN pv ELSE 0],
+     perm |-> [i \in 1..NF |-> 0]]       \* observation: class "x" requests this generation's filter i let pass
 Valid(o, i) == o.ref[i] # 0 /\ <<o.ref[i], i>> \notin dead
 Killed(o) == {<<o.ref[i], i>> : i \in {j \in 1..NF : Cls(Kinds[j]) = "kill" /\ o.ref[j] # 0}}
+Disabled(o) == {<<o.ref[i], i>> : i \in {j \in 1..NF : Cls(Kinds[j]) = "disable" /\ o.ref[j] # 0}}
 
 Init ==
     /\ muxInst = 1
     /\ sgen = <<[rv |-> 1, ov |-> 1]>>
-    /\ pobj = <<NewObj(Routed[1], 1, 1, TRUE), NewObj(Routed[2], 1, 2, TRUE)>>
+    /\ pobj = <<NewObj(Routed[1], 1, 1, 1, 1, TRUE), NewObj(Routed[2], 1, 1, 1, 2, TRUE)>>
     /\ ns = [p \in Pipes |-> IF p = Routed[1] THEN 1 ELSE IF p = Routed[2] THEN 2 ELSE 0]
     /\ dead = {}
+    /\ lim = [spent |-> {}, off |-> {}]
     /\ u = Idle
     /\ rq = [r \in Reqs |-> NoReq]
     /\ cnt = [srv |-> 0, pip |-> 0, other |-> 0, same |-> 0, req |-> [r \in Reqs |-> 0]]
@@ -115,7 +147,7 @@ SrvBuild(kind) ==
           /\ last' = [a |-> "srvBuild", g |-> Len(sgen) + 1, kind |-> kind, rv |-> nxt.rv, ov |-> nxt.ov]
     /\ u' = [op |-> "srv", p |-> "-", new |-> Len(sgen) + 1, i |-> 0]
     /\ cnt' = [cnt EXCEPT !.srv = @ + 1]
-    /\ UNCHANGED <<muxInst, ns, pobj, dead, rq>>
+    /\ UNCHANGED <<muxInst, ns, pobj, dead, lim, rq>>
 
 (* mux.reload, second half: m.inst.Store(inst) - the linearisation point of the server update    *)
 SrvStore ==
@@ -123,16 +155,20 @@ SrvStore ==
     /\ muxInst' = u.new
     /\ u' = Idle
     /\ last' = [a |-> "srvStore", g |-> u.new, rv |-> sgen[u.new].rv, ov |-> sgen[u.new].ov]
-    /\ UNCHANGED <<sgen, ns, pobj, dead, rq, cnt>>
+    /\ UNCHANGED <<sgen, ns, pobj, dead, lim, rq, cnt>>
 
-(* Update/ApplyPipeline under tc.mutex: the new entity exists, nothing inherited yet             *)
-PipBegin(p) ==
-    /\ CanBegin /\ cnt.pip < MaxPip /\ ns[p] # 0
-    /\ pobj' = Append(pobj, NewObj(p, NextVer(p), Len(pobj) + 1, FALSE))
+(* Update/ApplyPipeline under tc.mutex: the new entity exists, nothing inherited yet; the new     *)
+(* spec differs from the running one in the filters, in the resilience section or in both        *)
+PipBegin(p, kind) ==
+    /\ CanBegin /\ cnt.pip < MaxPip /\ ns[p] # 0 /\ kind \in PipKinds
+    /\ LET old == pobj[ns[p]]
+           fv == IF kind = "resil" THEN old.fv ELSE old.fv + 1
+           pv == IF kind = "filters" THEN old.pv ELSE old.pv + 1
+       IN /\ pobj' = Append(pobj, NewObj(p, NextVer(p), fv, pv, Len(pobj) + 1, FALSE))
+          /\ last' = [a |-> "pipBegin", p |-> p, ver |-> NextVer(p), kind |-> kind, fv |-> fv, pv |-> pv]
     /\ u' = [op |-> "pip", p |-> p, new |-> Len(pobj) + 1, i |-> 1]
     /\ cnt' = [cnt EXCEPT !.pip = @ + 1]
-    /\ last' = [a |-> "pipBegin", p |-> p, ver |-> NextVer(p)]
-    /\ UNCHANGED <<muxInst, sgen, ns, dead, rq>>
+    /\ UNCHANGED <<muxInst, sgen, ns, dead, lim, rq>>
 
 (* Pipeline.reload: filter.Inherit(prev) of filter u.i, as the kind does it                      *)
 PipInheritF ==
@@ -140,12 +176,16 @@ PipInheritF ==
     /\ LET old == ns[u.p]
            k == Kinds[u.i]
            m == Inh(k)
+           \* knob Reuse: the filter's own spec is unchanged - the new generation takes the running instance over as it is
+           reuse == Reuse /\ pobj[u.new].fv = pobj[old].fv
        IN /\ pobj' = [pobj EXCEPT
-                        ![u.new].ref[u.i] = IF m = "fresh" THEN u.new ELSE pobj[old].ref[u.i],
-                        ![old].ref[u.i] = IF m = "move" THEN 0 ELSE @]
+                        ![u.new].ref[u.i] = IF reuse THEN pobj[old].ref[u.i] ELSE IF m = "fresh" THEN u.new ELSE pobj[old].ref[u.i],
+                        \* Pipeline.reload: InjectResiliencePolicy(p.resilience) on the instance just initialised / inherited
+                        ![u.new].pol[u.i] = IF k \notin Resilient THEN 0 ELSE IF reuse THEN pobj[old].pol[u.i] ELSE pobj[u.new].pv,
+                        ![old].ref[u.i] = IF m = "move" /\ ~reuse THEN 0 ELSE @]
           /\ last' = [a |-> "pipInherit", p |-> u.p, i |-> u.i, k |-> k]
     /\ u' = [u EXCEPT !.i = @ + 1]
-    /\ UNCHANGED <<muxInst, sgen, ns, dead, rq, cnt>>
+    /\ UNCHANGED <<muxInst, sgen, ns, dead, lim, rq, cnt>>
 
 (* Pipeline.Inherit: previousGeneration.Close() - every filter of the old generation is closed   *)
 PipClosePrev ==
@@ -153,6 +193,7 @@ PipClosePrev ==
     /\ LET old == ns[u.p] IN
        /\ pobj' = [pobj EXCEPT ![old].closed = TRUE]
        /\ dead' = dead \cup Killed(pobj[old])
+       /\ lim' = [lim EXCEPT !.off = @ \cup Disabled(pobj[old])]
     /\ u' = [u EXCEPT !.i = NF + 2]
     /\ last' = [a |-> "pipClose", p |-> u.p]
     /\ UNCHANGED <<muxInst, sgen, ns, rq, cnt>>
@@ -162,15 +203,15 @@ PipStore ==
     /\ u.op = "pip" /\ u.i = NF + 2
     /\ ns' = [ns EXCEPT ![u.p] = u.new]
     /\ u' = Idle
-    /\ last' = [a |-> "pipStore", p |-> u.p, ver |-> pobj[u.new].ver]
-    /\ UNCHANGED <<muxInst, sgen, pobj, dead, rq, cnt>>
+    /\ last' = [a |-> "pipStore", p |-> u.p, ver |-> pobj[u.new].ver, fv |-> pobj[u.new].fv, pv |-> pobj[u.new].pv]
+    /\ UNCHANGED <<muxInst, sgen, pobj, dead, lim, rq, cnt>>
 
 (* ApplyPipeline with a spec equal to the running one: returns the previous entity               *)
 ApplySame(p) ==
     /\ CanBegin /\ cnt.same < MaxSame /\ ns[p] # 0
     /\ cnt' = [cnt EXCEPT !.same = @ + 1]
-    /\ last' = [a |-> "same", p |-> p, ver |-> VerOf(ns[p])]
-    /\ UNCHANGED <<muxInst, sgen, ns, pobj, dead, u, rq>>
+    /\ last' = [a |-> "same", p |-> p, ver |-> VerOf(ns[p]), fv |-> FvOf(ns[p]), pv |-> PvOf(ns[p])]
+    /\ UNCHANGED <<muxInst, sgen, ns, pobj, dead, lim, u, rq>>
 
 (* a new generation of the TrafficController object itself: Inherit takes over the mutex and the  *)
 (* namespaces of the previous one - nothing a request can see changes                            *)
@@ -178,23 +219,23 @@ CtlInherit ==
     /\ CanBegin /\ cnt.same < MaxSame
     /\ cnt' = [cnt EXCEPT !.same = @ + 1]
     /\ last' = [a |-> "ctl"]
-    /\ UNCHANGED <<muxInst, sgen, ns, pobj, dead, u, rq>>
+    /\ UNCHANGED <<muxInst, sgen, ns, pobj, dead, lim, u, rq>>
 
 (* CreatePipeline of another object: entity.Init ; Store                                         *)
 CreateInit(q) ==
     /\ CanBegin /\ cnt.other < MaxOther /\ q \in Others /\ ns[q] = 0
-    /\ pobj' = Append(pobj, NewObj(q, NextVer(q), Len(pobj) + 1, TRUE))
+    /\ pobj' = Append(pobj, NewObj(q, NextVer(q), NextVer(q), NextVer(q), Len(pobj) + 1, TRUE))
     /\ u' = [op |-> "create", p |-> q, new |-> Len(pobj) + 1, i |-> 0]
     /\ cnt' = [cnt EXCEPT !.other = @ + 1]
-    /\ last' = [a |-> "createInit", p |-> q, ver |-> NextVer(q)]
-    /\ UNCHANGED <<muxInst, sgen, ns, dead, rq>>
+    /\ last' = [a |-> "createInit", p |-> q, ver |-> NextVer(q), fv |-> NextVer(q), pv |-> NextVer(q)]
+    /\ UNCHANGED <<muxInst, sgen, ns, dead, lim, rq>>
 
 CreateStore ==
     /\ u.op = "create"
     /\ ns' = [ns EXCEPT ![u.p] = u.new]
     /\ u' = Idle
-    /\ last' = [a |-> "createStore", p |-> u.p, ver |-> pobj[u.new].ver]
-    /\ UNCHANGED <<muxInst, sgen, pobj, dead, rq, cnt>>
+    /\ last' = [a |-> "createStore", p |-> u.p, ver |-> pobj[u.new].ver, fv |-> pobj[u.new].fv, pv |-> pobj[u.new].pv]
+    /\ UNCHANGED <<muxInst, sgen, pobj, dead, lim, rq, cnt>>
 
 (* DeletePipeline of another object: LoadAndDelete ; entity.Close                                *)
 DeleteRemove(q) ==
@@ -203,38 +244,40 @@ DeleteRemove(q) ==
     /\ ns' = [ns EXCEPT ![q] = 0]
     /\ cnt' = [cnt EXCEPT !.other = @ + 1]
     /\ last' = [a |-> "deleteRemove", p |-> q]
-    /\ UNCHANGED <<muxInst, sgen, pobj, dead, rq>>
+    /\ UNCHANGED <<muxInst, sgen, pobj, dead, lim, rq>>
 
 DeleteClose ==
     /\ u.op = "delete"
     /\ pobj' = [pobj EXCEPT ![u.new].closed = TRUE]
     /\ dead' = dead \cup Killed(pobj[u.new])
+    /\ lim' = [lim EXCEPT !.off = @ \cup Disabled(pobj[u.new])]
     /\ u' = Idle
     /\ last' = [a |-> "deleteClose", p |-> u.p]
     /\ UNCHANGED <<muxInst, sgen, ns, rq, cnt>>
 
 Updater == \/ (\E kind \in SrvKinds : SrvBuild(kind)) \/ SrvStore \/ CtlInherit \/ PipInheritF \/ PipClosePrev \/ PipStore \/ CreateStore \/ DeleteClose
-           \/ \E p \in Pipes : PipBegin(p) \/ ApplySame(p) \/ CreateInit(p) \/ DeleteRemove(p)
+           \/ \E p \in Pipes : (\E kind \in PipKinds : PipBegin(p, kind)) \/ ApplySame(p) \/ CreateInit(p) \/ DeleteRemove(p)
 
 (* ------------------------------- a request -------------------------------------------------- *)
 (* the generation of the server a step of request r reads from: the one it holds                 *)
 Cur(r) == IF LoadPerStep THEN muxInst ELSE rq[r].sg
 
-ReqStart(r, tg, ip) ==
+ReqStart(r, tg, ip, cl) ==
     /\ rq[r].pc = "idle" /\ cnt.req[r] < MaxReq
     /\ tg \in Targets /\ ip \in IPs /\ (tg # "srv" => ip = "n")
-    /\ rq' = [rq EXCEPT ![r] = [NoReq EXCEPT !.pc = IF tg = "srv" THEN "load" ELSE "get", !.tg = tg, !.ip = ip,
+    /\ cl \in Classes /\ (cl # "n" => ip = "n")
+    /\ rq' = [rq EXCEPT ![r] = [NoReq EXCEPT !.pc = IF tg = "srv" THEN "load" ELSE "get", !.tg = tg, !.ip = ip, !.cl = cl,
                                               !.fs = muxInst, !.fp = [p \in Pipes |-> VerOf(ns[p])]]]
     /\ cnt' = [cnt EXCEPT !.req[r] = @ + 1]
-    /\ last' = [a |-> "start", r |-> r, tg |-> tg, ip |-> ip]
-    /\ UNCHANGED <<muxInst, sgen, ns, pobj, dead, u>>
+    /\ last' = [a |-> "start", r |-> r, tg |-> tg, ip |-> ip, cl |-> cl]
+    /\ UNCHANGED <<muxInst, sgen, ns, pobj, dead, lim, u>>
 
 (* mux.ServeHTTP: m.inst.Load()                                                                  *)
 LoadInst(r) ==
     /\ rq[r].pc = "load"
     /\ rq' = [rq EXCEPT ![r].sg = muxInst, ![r].pc = "route"]
     /\ last' = [a |-> "load", r |-> r, g |-> muxInst, rv |-> sgen[muxInst].rv, ov |-> sgen[muxInst].ov]
-    /\ UNCHANGED <<muxInst, sgen, ns, pobj, dead, u, cnt>>
+    /\ UNCHANGED <<muxInst, sgen, ns, pobj, dead, lim, u, cnt>>
 
 (* muxInstance.search: the server-level ipFilter of the held instance admits the client, then   *)
 (* its rules choose the backend                                                                  *)
@@ -245,7 +288,7 @@ Route(r) ==
             /\ last' = [a |-> "route", r |-> r, g |-> Cur(r), rv |-> sgen[Cur(r)].rv, be |-> "-", blocked |-> TRUE]
        ELSE /\ rq' = [rq EXCEPT ![r].be = Cur(r), ![r].pc = "get"]
             /\ last' = [a |-> "route", r |-> r, g |-> Cur(r), rv |-> sgen[Cur(r)].rv, be |-> BackendOf(Cur(r)), blocked |-> FALSE]
-    /\ UNCHANGED <<muxInst, sgen, ns, pobj, dead, u, cnt>>
+    /\ UNCHANGED <<muxInst, sgen, ns, pobj, dead, lim, u, cnt>>
 
 (* muxMapper.GetHandler (sync.Map load), then rewrite and X-Forwarded-For from the held instance *)
 GetHandler(r) ==
@@ -254,28 +297,62 @@ GetHandler(r) ==
            g == IF rq[r].tg = "srv" THEN Cur(r) ELSE 0
        IN IF ns[p] = 0
           THEN /\ rq' = [rq EXCEPT ![r].st = "503", ![r].pc = "done"]
-               /\ last' = [a |-> "get", r |-> r, p |-> p, found |-> FALSE, ver |-> 0, g |-> g, rv |-> 0, xf |-> FALSE]
+               /\ last' = [a |-> "get", r |-> r, p |-> p, found |-> FALSE, ver |-> 0, fv |-> 0, pv |-> 0, g |-> g, rv |-> 0, xf |-> FALSE]
           ELSE /\ rq' = [rq EXCEPT ![r].ph = ns[p], ![r].rw = g, ![r].xf = g, ![r].i = 1,
                                    ![r].pc = IF NF = 0 THEN "done" ELSE "run",
                                    ![r].st = IF NF = 0 THEN "ok" ELSE ""]
-               /\ last' = [a |-> "get", r |-> r, p |-> p, found |-> TRUE, ver |-> VerOf(ns[p]), g |-> g,
+               /\ last' = [a |-> "get", r |-> r, p |-> p, found |-> TRUE, ver |-> VerOf(ns[p]), fv |-> FvOf(ns[p]), pv |-> PvOf(ns[p]), g |-> g,
                            rv |-> IF g = 0 THEN 0 ELSE sgen[g].rv, xf |-> IF g = 0 THEN FALSE ELSE XffOf(g)]
-    /\ UNCHANGED <<muxInst, sgen, ns, pobj, dead, u, cnt>>
+    /\ UNCHANGED <<muxInst, sgen, ns, pobj, dead, lim, u, cnt>>
 
 (* Pipeline.doHandle: filter i of the held pipeline generation handles the request, using the     *)
-(* state cell the filter instance points to *now*                                                *)
-Advance(r, i, ok) == [rq EXCEPT ![r].i = IF ok THEN i + 1 ELSE i,
-                                ![r].pc = IF ok /\ i < NF THEN "run" ELSE "done",
-                                ![r].st = IF ~ok THEN "fail" ELSE IF i = NF THEN "ok" ELSE ""]
+(* state cell the filter instance points to *now* and the policies the instance works under.      *)
+(* Outcome of the call for request r:                                                             *)
+(*   "fail"     the cell is gone (nil pointer / killed by a Close)                                *)
+(*   "limited"  class "x" at a Limiting kind whose cell has no permit left: 429, the flow ends    *)
+(*   "bfail"    class "f" at a Resilient kind: the backend call fails under the policies          *)
+(*              pol[i] of the instance (their version shows in the number of attempts), the flow  *)
+(*              ends with the backend's failure                                                   *)
+(*   "pass"     otherwise; a class "x" request that passes a Limiting kind takes a permit         *)
+Cell(o, i) == <<o.ref[i], i>>
+Permit(r) == LET o == pobj[rq[r].ph]  i == rq[r].i IN
+    /\ Valid(o, i) /\ Kinds[i] \in Limiting /\ rq[r].cl = "x"
+    /\ Cell(o, i) \in lim.off \/ Cell(o, i) \notin lim.spent
+Res(r) == LET o == pobj[rq[r].ph]  i == rq[r].i IN
+    IF ~Valid(o, i) THEN "fail"
+    ELSE IF Kinds[i] \in Limiting /\ rq[r].cl = "x" /\ ~Permit(r) THEN "limited"
+    ELSE IF Kinds[i] \in Resilient /\ rq[r].cl = "f" THEN "bfail"
+    ELSE "pass"
+
+Advance(r, res) == LET o == pobj[rq[r].ph]  i == rq[r].i IN
+    [rq EXCEPT ![r].i = IF res = "pass" THEN i + 1 ELSE i,
+               ![r].pc = IF res = "pass" /\ i < NF THEN "run" ELSE "done",
+               ![r].po = IF res = "bfail" THEN o.pol[i] ELSE @,
+               ![r].st = CASE res = "fail" -> "fail" [] res = "limited" -> "429" [] res = "bfail" -> "bfail"
+                           [] OTHER -> IF i = NF THEN "ok" ELSE ""]
+
+(* what an observer sees of the call: its outcome, the generation the request holds and - for a    *)
+(* failing backend call - the policies the filter worked under; `over`: the generation has now let *)
+(* more class "x" requests pass than it is configured to                                          *)
+RunObs(a, r, res) == LET o == pobj[rq[r].ph]  i == rq[r].i IN
+    [a |-> a, r |-> r, i |-> i, k |-> Kinds[i], ok |-> res # "fail", res |-> res, cl |-> rq[r].cl,
+     ver |-> o.ver, fv |-> o.fv, pv |-> o.pv, closed |-> o.closed,
+     pol |-> IF res = "bfail" THEN o.pol[i] ELSE 0,
+     over |-> Permit(r) /\ o.perm[i] + 1 > Limit]
+
+Handled(a, r) ==
+    LET o == pobj[rq[r].ph]
+        i == rq[r].i
+        res == Res(r)
+    IN /\ rq' = Advance(r, res)
+       /\ pobj' = IF Permit(r) THEN [pobj EXCEPT ![rq[r].ph].perm[i] = @ + 1] ELSE pobj
+       /\ lim' = IF Permit(r) /\ Cell(o, i) \notin lim.off THEN [lim EXCEPT !.spent = @ \cup {Cell(o, i)}] ELSE lim
+       /\ last' = RunObs(a, r, res)
 
 RunFilter(r) ==
     /\ rq[r].pc = "run" /\ Kinds[rq[r].i] \notin Blocking
-    /\ LET o == pobj[rq[r].ph]
-           i == rq[r].i
-           ok == Valid(o, i)
-       IN /\ rq' = Advance(r, i, ok)
-          /\ last' = [a |-> "run", r |-> r, i |-> i, k |-> Kinds[i], ok |-> ok, ver |-> o.ver]
-    /\ UNCHANGED <<muxInst, sgen, ns, pobj, dead, u, cnt>>
+    /\ Handled("run", r)
+    /\ UNCHANGED <<muxInst, sgen, ns, dead, u, cnt>>
 
 (* a filter that calls out (Proxy -> backend): the request is in flight between the two steps;   *)
 (* the filter's state must still be usable when the answer comes back                            *)
@@ -284,26 +361,22 @@ RunEnter(r) ==
     /\ LET o == pobj[rq[r].ph]
            i == rq[r].i
            ok == Valid(o, i)
-       IN /\ rq' = IF ok THEN [rq EXCEPT ![r].pc = "in"] ELSE Advance(r, i, FALSE)
-          /\ last' = [a |-> "enter", r |-> r, i |-> i, k |-> Kinds[i], ok |-> ok, ver |-> o.ver]
-    /\ UNCHANGED <<muxInst, sgen, ns, pobj, dead, u, cnt>>
+       IN /\ rq' = IF ok THEN [rq EXCEPT ![r].pc = "in"] ELSE Advance(r, "fail")
+          /\ last' = [RunObs("enter", r, IF ok THEN "pass" ELSE "fail") EXCEPT !.over = FALSE]
+    /\ UNCHANGED <<muxInst, sgen, ns, pobj, dead, lim, u, cnt>>
 
 RunExit(r) ==
     /\ rq[r].pc = "in"
-    /\ LET o == pobj[rq[r].ph]
-           i == rq[r].i
-           ok == Valid(o, i)
-       IN /\ rq' = Advance(r, i, ok)
-          /\ last' = [a |-> "exit", r |-> r, i |-> i, k |-> Kinds[i], ok |-> ok, ver |-> o.ver]
-    /\ UNCHANGED <<muxInst, sgen, ns, pobj, dead, u, cnt>>
+    /\ Handled("exit", r)
+    /\ UNCHANGED <<muxInst, sgen, ns, dead, u, cnt>>
 
 ReqDone(r) ==
     /\ rq[r].pc = "done"
     /\ rq' = [rq EXCEPT ![r] = NoReq]
     /\ last' = [a |-> "done", r |-> r, st |-> rq[r].st]
-    /\ UNCHANGED <<muxInst, sgen, ns, pobj, dead, u, cnt>>
+    /\ UNCHANGED <<muxInst, sgen, ns, pobj, dead, lim, u, cnt>>
 
-Request(r) == \/ \E tg \in Targets, ip \in IPs : ReqStart(r, tg, ip)
+Request(r) == \/ \E tg \in Targets, ip \in IPs, cl \in Classes : ReqStart(r, tg, ip, cl)
               \/ LoadInst(r) \/ Route(r) \/ GetHandler(r) \/ RunFilter(r) \/ RunEnter(r) \/ RunExit(r) \/ ReqDone(r)
 
 Next == Updater \/ \E r \in Reqs : Request(r)
@@ -342,11 +415,20 @@ Isolation == \A q \in Pipes : q # u.p => Servable(q)
 IsolationStep ==
     [][\A q \in Pipes : (q # u.p /\ q # u'.p) =>
             /\ ns'[q] = ns[q]
-            /\ ns[q] # 0 => pobj'[ns[q]] = pobj[ns[q]]]_vars
+            /\ ns[q] # 0 => [pobj'[ns[q]] EXCEPT !.perm = pobj[ns[q]].perm] = pobj[ns[q]]]_vars
 
 (* an update that has completed leaves the updated object servable                               *)
 Settled == u.op = "idle" => \A q \in Pipes : Servable(q)
 
+(* the generation a request is handled under is the one configured: a Resilient filter works     *)
+(* under the policies of the generation the request holds (with Visibility: once an update of the *)
+(* resilience section has been applied, every new request is handled under the new policies) ...  *)
+Configured == \A r \in Reqs : rq[r].po # 0 => rq[r].po = pobj[rq[r].ph].pv
+
+(* ... and no generation lets more class "x" requests pass than it is configured to, whatever a    *)
+(* Close of another generation did to a state cell the two share                                  *)
+Limited == \A id \in 1..Len(pobj) : \A i \in 1..NF : pobj[id].perm[i] <= Limit
+
 (* applying an unchanged spec changes nothing                                                    *)
-NoOp == [][last'.a \in {"same", "ctl"} => /\ ns' = ns /\ pobj' = pobj /\ dead' = dead /\ muxInst' = muxInst /\ sgen' = sgen]_vars
+NoOp == [][last'.a \in {"same", "ctl"} => /\ ns' = ns /\ pobj' = pobj /\ dead' = dead /\ lim' = lim /\ muxInst' = muxInst /\ sgen' = sgen]_vars
 =============================================================================
